@@ -32,6 +32,8 @@ SIG_F20 = ("C10:F20 DataSaver.tell of a known point overwrites extra_data althou
            "(extra_data no longer belongs to data)")
 SIG_F22 = ("C10:F22 AverageLearner1D.ask hands out an already told (seed, x) after samples with non-consecutive seeds and "
            "marks it pending (told point in pending_points)")
+SIG_F24 = ("C10:F24 LearnerND without a triangulation hands out a random point that is already told (not checked against data; its "
+           "private RNG is rolled back by ask(tell_pending=False)) and marks it pending")
 SIG_F2 = ("C10:F2 BalancingLearner.remove_unfinished does not invalidate the loss caches (C15:F2): loss(real=False) != "
           "loss(real=True) afterwards although every child reports equal losses")
 SIG_F23 = ("C10:F23 AverageLearner1D.tell_many with several samples at one abscissa (tell_many_at_point) leaves the told "
@@ -108,6 +110,10 @@ class Oracle:
         bad = [k for k in self.told if k in pend]
         if bad and G.base_kind(self.spec) == "Avg1D" and all(k in self.rehanded for k in bad):
             self.err(SIG_F22, f"{name} after {G.short(op)}: the committing ask returned {G.short(bad[0])}, which already has a value, "
+                              f"and marked it pending")
+            self.stop = True
+        elif bad and G.base_kind(self.spec) == "LND" and all(k in self.rehanded for k in bad):
+            self.err(SIG_F24, f"{name} after {G.short(op)}: the committing ask returned {G.short(bad[0])}, which already has a value, "
                               f"and marked it pending")
             self.stop = True
         elif bad and G.base_kind(self.spec) == "Avg1D" and op[0] == "tell_many" and self._same_x_batch(op, bad):
